@@ -85,6 +85,8 @@ mod permissions;
 #[cfg(test)]
 mod test_utils;
 mod validation;
+#[cfg(feature = "verif-hooks")]
+pub mod verif_hooks;
 mod welcomes;
 
 pub use self::encryption::EncryptionConfig;
@@ -450,10 +452,13 @@ impl MdkSqliteStorage {
     /// Provides access to the underlying connection for MDK storage operations.
     ///
     /// This method is for internal use by the group, message, and welcome storage implementations.
+    #[cfg_attr(feature = "verif-hooks", track_caller)]
     pub(crate) fn with_connection<F, T>(&self, f: F) -> T
     where
         F: FnOnce(&Connection) -> T,
     {
+        #[cfg(feature = "verif-hooks")]
+        crate::verif_hooks::tick(std::panic::Location::caller());
         let conn = self.connection.lock().unwrap();
         f(&conn)
     }
@@ -461,6 +466,8 @@ impl MdkSqliteStorage {
     /// Creates a snapshot of a group's state by copying all group-related rows
     /// to the snapshot table.
     fn snapshot_group_state(&self, group_id: &GroupId, name: &str) -> Result<(), Error> {
+        #[cfg(feature = "verif-hooks")]
+        crate::verif_hooks::tick(std::panic::Location::caller());
         let conn = self.connection.lock().unwrap();
         let group_id_bytes = group_id.as_slice();
         // MLS storage uses MlsCodec serialization for group_id keys.
@@ -478,6 +485,8 @@ impl MdkSqliteStorage {
 
         let result = (|| -> Result<(), Error> {
             // Re-taking a snapshot under an existing name replaces it (as the memory backend does)
+            #[cfg(feature = "verif-hooks")]
+            crate::verif_hooks::tick_in_tx("tx:snapshot_group_state", line!());
             conn.execute(
                 "DELETE FROM group_state_snapshots WHERE snapshot_name = ? AND group_id = ?",
                 rusqlite::params![name, group_id_bytes],
@@ -485,6 +494,8 @@ impl MdkSqliteStorage {
             .map_err(|e| Error::Database(e.to_string()))?;
 
             // Helper to insert snapshot rows
+            #[cfg(feature = "verif-hooks")]
+            crate::verif_hooks::tick_in_tx("tx:snapshot_group_state", line!());
             let mut insert_stmt = conn
                 .prepare_cached(
                     "INSERT INTO group_state_snapshots
@@ -495,6 +506,8 @@ impl MdkSqliteStorage {
 
             // Snapshot all 7 tables (4 OpenMLS + 3 MDK)
             // OpenMLS tables use MlsCodec-serialized group_id as their key
+            #[cfg(feature = "verif-hooks")]
+            crate::verif_hooks::tick_in_tx("tx:snapshot_group_state", line!());
             Self::snapshot_openmls_group_data(
                 &conn,
                 &mut insert_stmt,
@@ -503,6 +516,8 @@ impl MdkSqliteStorage {
                 &mls_group_id_bytes,
                 now,
             )?;
+            #[cfg(feature = "verif-hooks")]
+            crate::verif_hooks::tick_in_tx("tx:snapshot_group_state", line!());
             Self::snapshot_openmls_proposals(
                 &conn,
                 &mut insert_stmt,
@@ -511,6 +526,8 @@ impl MdkSqliteStorage {
                 &mls_group_id_bytes,
                 now,
             )?;
+            #[cfg(feature = "verif-hooks")]
+            crate::verif_hooks::tick_in_tx("tx:snapshot_group_state", line!());
             Self::snapshot_openmls_own_leaf_nodes(
                 &conn,
                 &mut insert_stmt,
@@ -519,6 +536,8 @@ impl MdkSqliteStorage {
                 &mls_group_id_bytes,
                 now,
             )?;
+            #[cfg(feature = "verif-hooks")]
+            crate::verif_hooks::tick_in_tx("tx:snapshot_group_state", line!());
             Self::snapshot_openmls_epoch_key_pairs(
                 &conn,
                 &mut insert_stmt,
@@ -528,8 +547,14 @@ impl MdkSqliteStorage {
                 now,
             )?;
             // MDK tables use raw bytes for mls_group_id
+            #[cfg(feature = "verif-hooks")]
+            crate::verif_hooks::tick_in_tx("tx:snapshot_group_state", line!());
             Self::snapshot_groups_table(&conn, &mut insert_stmt, name, group_id_bytes, now)?;
+            #[cfg(feature = "verif-hooks")]
+            crate::verif_hooks::tick_in_tx("tx:snapshot_group_state", line!());
             Self::snapshot_group_relays(&conn, &mut insert_stmt, name, group_id_bytes, now)?;
+            #[cfg(feature = "verif-hooks")]
+            crate::verif_hooks::tick_in_tx("tx:snapshot_group_state", line!());
             Self::snapshot_group_exporter_secrets(
                 &conn,
                 &mut insert_stmt,
@@ -543,6 +568,8 @@ impl MdkSqliteStorage {
 
         match result {
             Ok(()) => {
+                #[cfg(feature = "verif-hooks")]
+                crate::verif_hooks::tick_in_tx("tx:snapshot_group_state", line!());
                 conn.execute("COMMIT", [])
                     .map_err(|e| Error::Database(e.to_string()))?;
                 Ok(())
@@ -861,6 +888,8 @@ impl MdkSqliteStorage {
     /// Restores a group's state from a snapshot by deleting current rows
     /// and re-inserting from the snapshot table.
     fn restore_group_from_snapshot(&self, group_id: &GroupId, name: &str) -> Result<(), Error> {
+        #[cfg(feature = "verif-hooks")]
+        crate::verif_hooks::tick(std::panic::Location::caller());
         let conn = self.connection.lock().unwrap();
         let group_id_bytes = group_id.as_slice();
         // MLS storage uses a serde-compatible binary serialization codec for group_id keys.
@@ -940,24 +969,32 @@ impl MdkSqliteStorage {
         let result = (|| -> Result<(), Error> {
             // 2. Delete current rows for this group from all 7 tables
             // OpenMLS tables use MlsCodec-serialized group_id as their key
+            #[cfg(feature = "verif-hooks")]
+            crate::verif_hooks::tick_in_tx("tx:restore_group_from_snapshot", line!());
             conn.execute(
                 "DELETE FROM openmls_group_data WHERE group_id = ?",
                 [&mls_group_id_bytes],
             )
             .map_err(|e| Error::Database(e.to_string()))?;
 
+            #[cfg(feature = "verif-hooks")]
+            crate::verif_hooks::tick_in_tx("tx:restore_group_from_snapshot", line!());
             conn.execute(
                 "DELETE FROM openmls_proposals WHERE group_id = ?",
                 [&mls_group_id_bytes],
             )
             .map_err(|e| Error::Database(e.to_string()))?;
 
+            #[cfg(feature = "verif-hooks")]
+            crate::verif_hooks::tick_in_tx("tx:restore_group_from_snapshot", line!());
             conn.execute(
                 "DELETE FROM openmls_own_leaf_nodes WHERE group_id = ?",
                 [&mls_group_id_bytes],
             )
             .map_err(|e| Error::Database(e.to_string()))?;
 
+            #[cfg(feature = "verif-hooks")]
+            crate::verif_hooks::tick_in_tx("tx:restore_group_from_snapshot", line!());
             conn.execute(
                 "DELETE FROM openmls_epoch_key_pairs WHERE group_id = ?",
                 [&mls_group_id_bytes],
@@ -966,12 +1003,16 @@ impl MdkSqliteStorage {
 
             // For MDK tables, we need to disable foreign key checks temporarily
             // or delete in the right order to avoid FK violations
+            #[cfg(feature = "verif-hooks")]
+            crate::verif_hooks::tick_in_tx("tx:restore_group_from_snapshot", line!());
             conn.execute(
                 "DELETE FROM group_exporter_secrets WHERE mls_group_id = ?",
                 [group_id_bytes],
             )
             .map_err(|e| Error::Database(e.to_string()))?;
 
+            #[cfg(feature = "verif-hooks")]
+            crate::verif_hooks::tick_in_tx("tx:restore_group_from_snapshot", line!());
             conn.execute(
                 "DELETE FROM group_relays WHERE mls_group_id = ?",
                 [group_id_bytes],
@@ -985,6 +1026,8 @@ impl MdkSqliteStorage {
                 .iter()
                 .any(|(table_name, _, _)| table_name == "groups");
             if !snapshot_has_group_row {
+                #[cfg(feature = "verif-hooks")]
+                crate::verif_hooks::tick_in_tx("tx:restore_group_from_snapshot", line!());
                 conn.execute(
                     "DELETE FROM groups WHERE mls_group_id = ?",
                     [group_id_bytes],
@@ -1032,6 +1075,8 @@ impl MdkSqliteStorage {
                     Option<Vec<u8>>,
                     i64,
                 ) = serde_json::from_slice(row_data).map_err(|e| Error::Database(e.to_string()))?;
+                #[cfg(feature = "verif-hooks")]
+                crate::verif_hooks::tick_in_tx("tx:restore_group_from_snapshot", line!());
                 conn.execute(
                     "INSERT INTO groups (mls_group_id, nostr_group_id, name, description, admin_pubkeys,
                                         last_message_id, last_message_at, last_message_processed_at, epoch, state,
@@ -1078,6 +1123,8 @@ impl MdkSqliteStorage {
                         let (gid, data_type): (Vec<u8>, String) =
                             serde_json::from_slice(row_key)
                                 .map_err(|e| Error::Database(e.to_string()))?;
+                        #[cfg(feature = "verif-hooks")]
+                        crate::verif_hooks::tick_in_tx("tx:restore_group_from_snapshot", line!());
                         conn.execute(
                             "INSERT INTO openmls_group_data (provider_version, group_id, data_type, group_data)
                              VALUES (1, ?, ?, ?)",
@@ -1089,6 +1136,8 @@ impl MdkSqliteStorage {
                         let (gid, proposal_ref): (Vec<u8>, Vec<u8>) =
                             serde_json::from_slice(row_key)
                                 .map_err(|e| Error::Database(e.to_string()))?;
+                        #[cfg(feature = "verif-hooks")]
+                        crate::verif_hooks::tick_in_tx("tx:restore_group_from_snapshot", line!());
                         conn.execute(
                             "INSERT INTO openmls_proposals (provider_version, group_id, proposal_ref, proposal)
                              VALUES (1, ?, ?, ?)",
@@ -1099,6 +1148,8 @@ impl MdkSqliteStorage {
                     "openmls_own_leaf_nodes" => {
                         let (gid, leaf_node): (Vec<u8>, Vec<u8>) = serde_json::from_slice(row_data)
                             .map_err(|e| Error::Database(e.to_string()))?;
+                        #[cfg(feature = "verif-hooks")]
+                        crate::verif_hooks::tick_in_tx("tx:restore_group_from_snapshot", line!());
                         conn.execute(
                             "INSERT INTO openmls_own_leaf_nodes (provider_version, group_id, leaf_node)
                              VALUES (1, ?, ?)",
@@ -1110,6 +1161,8 @@ impl MdkSqliteStorage {
                         let (gid, epoch_id, leaf_index): (Vec<u8>, Vec<u8>, i64) =
                             serde_json::from_slice(row_key)
                                 .map_err(|e| Error::Database(e.to_string()))?;
+                        #[cfg(feature = "verif-hooks")]
+                        crate::verif_hooks::tick_in_tx("tx:restore_group_from_snapshot", line!());
                         conn.execute(
                             "INSERT INTO openmls_epoch_key_pairs (provider_version, group_id, epoch_id, leaf_index, key_pairs)
                              VALUES (1, ?, ?, ?, ?)",
@@ -1124,6 +1177,8 @@ impl MdkSqliteStorage {
                         let (mls_group_id, relay_url): (Vec<u8>, String) =
                             serde_json::from_slice(row_data)
                                 .map_err(|e| Error::Database(e.to_string()))?;
+                        #[cfg(feature = "verif-hooks")]
+                        crate::verif_hooks::tick_in_tx("tx:restore_group_from_snapshot", line!());
                         conn.execute(
                             "INSERT INTO group_relays (mls_group_id, relay_url) VALUES (?, ?)",
                             rusqlite::params![mls_group_id, relay_url],
@@ -1133,6 +1188,8 @@ impl MdkSqliteStorage {
                     "group_exporter_secrets" => {
                         let (mls_group_id, epoch): (Vec<u8>, i64) = serde_json::from_slice(row_key)
                             .map_err(|e| Error::Database(e.to_string()))?;
+                        #[cfg(feature = "verif-hooks")]
+                        crate::verif_hooks::tick_in_tx("tx:restore_group_from_snapshot", line!());
                         conn.execute(
                             "INSERT INTO group_exporter_secrets (mls_group_id, epoch, secret) VALUES (?, ?, ?)",
                             rusqlite::params![mls_group_id, epoch, row_data],
@@ -1146,6 +1203,8 @@ impl MdkSqliteStorage {
             }
 
             // 4. Delete the consumed snapshot (may be no-op if CASCADE already deleted them)
+            #[cfg(feature = "verif-hooks")]
+            crate::verif_hooks::tick_in_tx("tx:restore_group_from_snapshot", line!());
             conn.execute(
                 "DELETE FROM group_state_snapshots WHERE snapshot_name = ? AND group_id = ?",
                 rusqlite::params![name, group_id_bytes],
@@ -1155,6 +1214,8 @@ impl MdkSqliteStorage {
             // 5. Re-insert other snapshots that were deleted by CASCADE
             // This preserves multiple snapshots when rolling back to one of them.
             for (snap_name, table_name, row_key, row_data, created_at) in &other_snapshots {
+                #[cfg(feature = "verif-hooks")]
+                crate::verif_hooks::tick_in_tx("tx:restore_group_from_snapshot", line!());
                 conn.execute(
                     "INSERT OR IGNORE INTO group_state_snapshots (snapshot_name, group_id, table_name, row_key, row_data, created_at)
                      VALUES (?, ?, ?, ?, ?, ?)",
@@ -1168,6 +1229,8 @@ impl MdkSqliteStorage {
 
         match result {
             Ok(()) => {
+                #[cfg(feature = "verif-hooks")]
+                crate::verif_hooks::tick_in_tx("tx:restore_group_from_snapshot", line!());
                 conn.execute("COMMIT", [])
                     .map_err(|e| Error::Database(e.to_string()))?;
                 Ok(())
@@ -1181,6 +1244,8 @@ impl MdkSqliteStorage {
 
     /// Deletes a snapshot that is no longer needed.
     fn delete_group_snapshot(&self, group_id: &GroupId, name: &str) -> Result<(), Error> {
+        #[cfg(feature = "verif-hooks")]
+        crate::verif_hooks::tick(std::panic::Location::caller());
         let conn = self.connection.lock().unwrap();
         conn.execute(
             "DELETE FROM group_state_snapshots WHERE snapshot_name = ? AND group_id = ?",
@@ -1229,6 +1294,8 @@ impl MdkStorageProvider for MdkSqliteStorage {
         &self,
         group_id: &GroupId,
     ) -> Result<Vec<(String, u64)>, MdkStorageError> {
+        #[cfg(feature = "verif-hooks")]
+        crate::verif_hooks::tick(std::panic::Location::caller());
         let conn = self.connection.lock().unwrap();
         let mut stmt = conn
             .prepare_cached(
@@ -1250,6 +1317,8 @@ impl MdkStorageProvider for MdkSqliteStorage {
     }
 
     fn prune_expired_snapshots(&self, min_timestamp: u64) -> Result<usize, MdkStorageError> {
+        #[cfg(feature = "verif-hooks")]
+        crate::verif_hooks::tick(std::panic::Location::caller());
         let conn = self.connection.lock().unwrap();
         // A snapshot is stored as one row per captured table row: count snapshots, not rows.
         let expired: i64 = conn
